@@ -326,7 +326,19 @@ class C16(Campaign):
               "perm_seed": rnd.randrange(1 << 30), "kinds": kinds, "insts": insts, "observe_more": True}
         all_sync = not any(m.get("async") for p_ in real for m in p_["cbs"].values())
         has_sub = any(p_.get("base_module") for p_ in real)
-        if all_sync and not has_sub and rnd.random() < 0.35:
+        if not has_sub and rnd.random() < 0.35:
+            # (machines with coroutine callbacks are driven through the synchronous API here: every thread
+            # runs them on its own event loop)
+            if not all_sync and rnd.random() < 0.5:
+                for p_ in real:
+                    for m_ in p_["cbs"].values():
+                        m_.pop("async", None)
+                for o_ in ops:
+                    if o_["op"] == "new" and o_.get("rtc") is True:
+                        pass  # (rtc=True stays: it is a legal option of sync machines too)
+                all_sync = True
+            if not all_sync:
+                sc["async_in_threads"] = True
             # thread variant: every instance is owned by one thread (its class is defined by that thread
             # too); process-wide caches and class-level objects are the only contact surface
             owner = {}
@@ -359,6 +371,8 @@ class C16(Campaign):
         out = {"violations": [], "unarmed": [], "mstats": {}, "res": res, "evals": 1, "c16": {}}
         if sc.get("mode") == "threads":
             out["c16"]["probe.thread_variant"] = 1
+            if sc.get("async_in_threads"):
+                out["c16"]["probe.thread_variant_with_coroutine_callbacks(one loop per thread)"] = 1
             out["c16"]["fault.preemptions"] = res["stats"].get("switches", 0)
         for tag in sc["insts"]:
             s = solo(sc, tag)
